@@ -360,7 +360,7 @@ static void run_one(const uint8_t* d, size_t n){
                     if (any) na_known = 0;
                     verify(r, !any);
                 } else if (variant == 2){
-                    if (nmodel >= 2 && order[0] == 0 && steps < 4){
+                    if (nmodel >= 2 && order[0] == 0 && steps < 4 && (r->N_active == -1 || r->N_active >= 1)){
                         steps++;
                         reb_simulation_step(r);
                         drain(r, &nerr);
